@@ -157,6 +157,36 @@ ObsC == [h   |-> height,
          ids |-> [x \in 1..MaxId |-> HeightOfC(x)],
          gh  |-> [k \in 1..NProbe |-> GH(ProbeQ(k), ProbeN(k))]]
 
+-----------------------------------------------------------------------------
+(* C10: crash points.  Every individual storage mutation an operation performs, in the order the code issues them;  *)
+(* after any prefix the surviving files must load (Load on the files alone) to a chain that is a prefix of the      *)
+(* abstract chain before or after the operation.                                                                   *)
+RECURSIVE LoadFiles(_, _, _, _)
+LoadFiles(fs, n, acc, prev) ==       \* [ok, chain] : what Load reconstructs from the files fs
+  IF ~(n \in FIdx) \/ fs[n] = <<>> THEN [ok |-> TRUE, chain |-> IF n = 0 THEN <<0>> ELSE acc]
+  ELSE IF prev # -1 /\ prev # K THEN [ok |-> FALSE, chain |-> acc]
+  ELSE LoadFiles(fs, n + 1, acc \o fs[n], Len(fs[n]))
+IsPrefix(a, b) == Len(a) <= Len(b) /\ SubSeq(b, 1, Len(a)) = a
+
+\* snapshots of the files after each storage mutation of Revert(t), in order (repaired code: the cache is saved first)
+RECURSIVE RemoveSnaps(_, _, _, _)
+RemoveSnaps(fs, r, t, acc) ==
+  IF r < t THEN [fs |-> fs, r |-> r, acc |-> acc]
+  ELSE LET i == Div(r + K, K)  fs2 == [fs EXCEPT ![i] = <<>>] IN RemoveSnaps(fs2, r - K, t, Append(acc, fs2))
+RevertSnaps(t) ==
+  LET fs0 == SaveTo(files, height, last)
+      rm == RemoveSnaps(fs0, Div(height, K) * K - 1, t, <<fs0>>)
+      i == Div(rm.r + K, K)
+      n == t - rm.r
+      d == rm.fs[i]
+      d2 == IF n < K /\ Len(d) > n THEN SubSeq(d, 1, n) ELSE d
+  IN Append(rm.acc, [rm.fs EXCEPT ![i] = d2])
+CrashOK(fs) == LET r == LoadFiles(fs, 0, <<>>, -1) IN r.ok /\ IsPrefix(r.chain, abs)
+CrashSafe ==
+  /\ CrashOK(files)                                              \* now
+  /\ CrashOK(SaveTo(files, height, last))                        \* after the single write of Save / roll-over
+  /\ \A t \in 0..height : \A k \in 1..Len(RevertSnaps(t)) : CrashOK(RevertSnaps(t)[k])
+
 QueryOK == AnswersP(ObsC, abs)
 NoPanic == NoCrashP(ObsC)
 NegOK == NegP(ObsC)
